@@ -220,6 +220,10 @@ def run(case):
         except Exception as e:
             out2, err2 = None, err_kind(e)
         tags.append("chain=" + (err2 or "ok"))
+        res["inter_shape"] = list(nref.shape)
+        ill = out.wcs.low_level_wcs
+        res["inter_wcs"] = {"pixDim": int(ill.pixel_n_dim), "worldDim": int(ill.world_n_dim), "corr": W.corr_matrix(ill),
+                            "shape": None if ill.array_shape is None else [int(x) for x in ill.array_shape]}
         if n2status == "ok" and np.ndim(nref2) > 0:
             if err2:
                 # numpy-valid Ellipsis placement that sanitize_slices refuses is reported separately below
@@ -315,7 +319,11 @@ def _observe(case, res, out, nref, idx, chain_items, shape, wcs_ll, model_req, r
         model_req["probes"] = probes
         res["model_req"] = model_req
     else:
+        # the first step is re-checked without probes; the second step is a fresh request whose base
+        # WCS is the (already sliced) WCS of the intermediate cube
         res["model_req"] = None
+        res["extra_reqs"] = [{"op": "getitem", "shape": res["inter_shape"], "items": chain_items,
+                              "wcs": res["inter_wcs"], "probes": probes}]
     return res
 
 
@@ -346,6 +354,30 @@ def compare(case, r, m):
         want = [W.p2w(base, [t[0] / t[1] if isinstance(t, list) else t for t in term["at"]])[term["w"]] for term in terms]
         if not W.close(wv, want, exact):
             return f"world at {rr}: implementation {wv} vs model term value {want}"
+    return None
+
+
+def compare_extra(case, r, k, m):
+    """Second slice of a chain, relative to the intermediate cube (its WCS is a SlicedLowLevelWCS)."""
+    if "err" in m:
+        return f"second step: implementation returned a result, model says {m['err']}"
+    o = r["obs"]
+    for key in ("shape", "pixDim", "worldDim", "arrayShape", "corr"):
+        if o[key] != m[key]:
+            return f"second step {key}: implementation {o[key]} vs model {m[key]}"
+    cube, base = build(case)
+    inter = cube[C.to_py_index(case["items"], case.get("bare", False))]
+    ishape = tuple(r["inter_shape"])
+    # source indices of the model are relative to the intermediate cube
+    _, src_inter = C.decode(C.materialize(inter.data), tuple(case["shape"]))
+    exact = case["fam"].startswith("probe")
+    for rr, src, wv, msrc, terms in zip(o["probes"], o["src"], o["world"], m["src"], m["world"]):
+        got = [int(a[tuple(msrc)]) for a in src_inter]
+        if got != src:
+            return f"second step: element {rr} comes from {src}, model says intermediate element {msrc} = {got}"
+        want = [W.p2w(inter.wcs, [t[0] / t[1] if isinstance(t, list) else t for t in term["at"]])[term["w"]] for term in terms]
+        if not W.close(wv, want, exact):
+            return f"second step: world at {rr}: implementation {wv} vs model term value {want}"
     return None
 
 
